@@ -5,6 +5,7 @@ import (
 	"fmt"
 	"io"
 	"math/rand"
+	"runtime"
 	"strconv"
 	"strings"
 	"sync"
@@ -41,6 +42,23 @@ type childPlan struct {
 	Msgs      []proto.Message
 	Final     error // io.EOF or a status error
 	Trailer   metadata.MD
+	// a DEVICE behind a wrapped server (wrapchild.go): what it does on the context of the handler that called it
+	Staged        metadata.MD   // grpc.SetHeader(ctx, ·) when the call arrives (staged, not sent)
+	StagedTrailer metadata.MD   // grpc.SetTrailer(ctx, ·) when the call arrives
+	USent         metadata.MD   // unary: grpc.SendHeader(ctx, ·) before answering
+	Reuse         bool          // stream: every message handed out is overwritten once the handler has passed it on (at the next Recv)
+	Scribble      proto.Message // what a reused message is overwritten with
+	Yield         bool          // stream: yield the processor before each Recv returns (the receiver gets to its receive first)
+}
+
+// stage does what a handler does with its context when the call arrives.
+func (p *childPlan) stage(ctx context.Context) {
+	if p.Staged != nil {
+		_ = grpc.SetHeader(ctx, p.Staged)
+	}
+	if p.StagedTrailer != nil {
+		_ = grpc.SetTrailer(ctx, p.StagedTrailer)
+	}
 }
 
 type recorder struct {
@@ -85,6 +103,10 @@ func (c *fakeConn) Invoke(ctx context.Context, method string, args, reply any, _
 	if p == nil {
 		return status.Error(codes.Internal, "no plan")
 	}
+	p.stage(ctx)
+	if p.USent != nil {
+		_ = grpc.SendHeader(ctx, p.USent)
+	}
 	if p.Err != nil {
 		return p.Err
 	}
@@ -115,6 +137,7 @@ type fakeClientStream struct {
 	plan   *childPlan
 	next   int
 	sent   bool
+	handed []proto.Message // the handler's own messages this stream has filled in so far
 }
 
 func (s *fakeClientStream) Header() (metadata.MD, error) {
@@ -138,6 +161,7 @@ func (s *fakeClientStream) SendMsg(m any) error {
 	}
 	s.conn.rec.record(call{Client: s.conn.id, Method: s.method, Req: cl, CtxOK: s.ctx.Value(ctxKey{}) == "marker", Ctx: s.ctx})
 	s.conn.rec.event("o")
+	s.plan.stage(s.ctx)
 	return nil
 }
 func (s *fakeClientStream) RecvMsg(m any) error {
@@ -145,12 +169,27 @@ func (s *fakeClientStream) RecvMsg(m any) error {
 	s.conn.rec.recvs++
 	s.conn.rec.events = append(s.conn.rec.events, "r")
 	s.conn.rec.mu.Unlock()
+	if s.plan.Reuse {
+		// the handler has passed the previous message on (its Send has returned): the message is the handler's
+		// again, and this handler uses it for something else
+		for _, old := range s.handed {
+			proto.Reset(old)
+			if s.plan.Scribble != nil {
+				proto.Merge(old, s.plan.Scribble)
+			}
+		}
+		s.handed = nil
+	}
+	if s.plan.Yield {
+		runtime.Gosched()
+	}
 	if s.next < len(s.plan.Msgs) {
 		msg := s.plan.Msgs[s.next]
 		s.next++
 		if pm, ok := m.(proto.Message); ok {
 			proto.Reset(pm)
 			proto.Merge(pm, msg)
+			s.handed = append(s.handed, pm)
 		}
 		return nil
 	}
